@@ -1,5 +1,767 @@
-(* Proofs about the AUTO model (C08). *)
-From Coq Require Import List NArith Bool Lia.
+(* Proofs about the AUTO model (C08): the reader reads what the printer prints; re-printing; conll fragments. *)
+From Coq Require Import List NArith Bool Lia PeanoNat Arith.
 Import ListNotations.
 Require Import Cat CatFacts CatLex CatRoundTrip Tree GenTables GenAuto Auto AutoSpec.
 Open Scope N_scope.
+
+(* ---------- facts about the generated tables, re-checked by computation on every build ---------- *)
+Lemma specials_std : forall c, special specials c = special9 c.
+Proof. apply existsb_ext_set. vm_compute. reflexivity. Qed.
+Lemma puncts_plain : Forall plain puncts.
+Proof. apply Forall_plain_of_bool. vm_compute. reflexivity. Qed.
+
+Lemma parse_cat_show c : wf puncts c -> parse_cat (show c) = Some c.
+Proof. intros H. exact (parse_show specials specials_std puncts puncts_plain c H). Qed.
+
+(* ---------- texts ---------- *)
+Lemma has_app c a b : has c (a ++ b) = has c a || has c b.
+Proof. unfold has. apply existsb_app. Qed.
+Lemma has_cons c x a : has c (x :: a) = N.eqb c x || has c a.
+Proof. reflexivity. Qed.
+
+Lemma nosp_app a b : nosp a -> nosp b -> nosp (a ++ b).
+Proof. unfold nosp. intros Ha Hb. now rewrite has_app, Ha, Hb. Qed.
+
+Lemma split_sp_app a r : nosp a -> split_sp (a ++ cSP :: r) = Some (a, r).
+Proof.
+  unfold nosp. induction a as [|x a IH]; intros H.
+  - reflexivity.
+  - rewrite has_cons in H. apply orb_false_iff in H as [Hx Ha].
+    cbn [app split_sp]. rewrite N.eqb_sym, Hx. now rewrite IH.
+Qed.
+Lemma split_sp_none a : nosp a -> split_sp a = None.
+Proof.
+  unfold nosp. induction a as [|x a IH]; intros H.
+  - reflexivity.
+  - rewrite has_cons in H. apply orb_false_iff in H as [Hx Ha].
+    cbn [split_sp]. rewrite N.eqb_sym, Hx. now rewrite IH.
+Qed.
+
+(* the key lemma on the cursor: a field without blank, followed by a blank, is what next() returns *)
+Lemma next_field line a r : nosp a -> next line (a ++ cSP :: r) = (a, r).
+Proof. intros H. unfold next. now rewrite split_sp_app. Qed.
+
+(* what may follow a printed node: the end of the line, or a blank *)
+Definition tail_ok (tl : text) : Prop := tl = [] \/ exists r, tl = cSP :: r.
+Definition after (line tl : text) : text := match tl with [] => line | _ :: r => r end.
+
+Lemma next_last line a tl : nosp a -> tail_ok tl -> exists x, next line (a ++ tl) = (x, after line tl).
+Proof.
+  intros Ha [-> | [r ->]].
+  - rewrite app_nil_r. unfold next. rewrite split_sp_none by assumption. now eexists.
+  - rewrite next_field by assumption. now eexists.
+Qed.
+
+(* ---------- a printed category contains no blank ---------- *)
+Lemma allplain_nosp t : allplain t = true -> nosp t.
+Proof.
+  unfold nosp. induction t as [|x t IH]; intros H; [reflexivity|].
+  cbn [allplain forallb] in H. apply andb_true_iff in H as [Hx Ht].
+  rewrite has_cons. rewrite (IH Ht), orb_false_r.
+  unfold plainc in Hx. apply andb_true_iff in Hx as [_ Hx]. apply negb_true_iff in Hx. now rewrite N.eqb_sym.
+Qed.
+
+Lemma slash_nosp s : slashP s -> nosp s.
+Proof. intros [-> | [-> | ->]]; reflexivity. Qed.
+
+Lemma show_nosp c : wf puncts c -> nosp (show c).
+Proof.
+  induction c as [b f | l IHl s r IHr]; intros Hwf.
+  - destruct Hwf as ([_ Hb] & Hf & _). cbn [show].
+    pose proof (allplain_show_feat f Hf) as Hft.
+    destruct (show_feat f) as [|x ft] eqn:E.
+    + now apply allplain_nosp.
+    + apply nosp_app; [now apply allplain_nosp|]. apply nosp_app; [reflexivity|].
+      apply nosp_app; [now apply allplain_nosp | reflexivity].
+  - destruct Hwf as (Hl & Hs & Hr).
+    assert (Hp : forall x, nosp (show x) -> nosp (pshow x)).
+    { intros x Hx. destruct x; [exact Hx|]. unfold pshow. apply nosp_app; [reflexivity|]. apply nosp_app; [exact Hx | reflexivity]. }
+    change (show (Fun l s r)) with (pshow l ++ s ++ pshow r).
+    apply nosp_app; [now apply Hp, IHl|]. apply nosp_app; [now apply slash_nosp | now apply Hp, IHr].
+Qed.
+
+(* ---------- str.replace and denormalize never introduce a character that neither the word nor the tables contain ---------- *)
+Lemma replace_go_has ch old new t skip : has ch new = false -> has ch t = false -> has ch (replace_go old new t skip) = false.
+Proof.
+  intros Hn. revert skip. induction t as [|x t IH]; intros skip Ht; [reflexivity|].
+  rewrite has_cons in Ht. apply orb_false_iff in Ht as [Hx Ht].
+  cbn [replace_go]. destruct skip as [|k]; [|now apply IH].
+  destruct (prefixb old (x :: t)).
+  - rewrite has_app, Hn. now apply IH.
+  - rewrite has_cons, Hx. now apply IH.
+Qed.
+
+Lemma replace_has ch old new t : has ch new = false -> has ch t = false -> has ch (replace old new t) = false.
+Proof.
+  intros Hn Ht. unfold replace. destruct old as [|o old]; [|now apply replace_go_has].
+  rewrite has_app, Hn. cbn [orb].
+  induction t as [|x t IH]; [reflexivity|].
+  rewrite has_cons in Ht. apply orb_false_iff in Ht as [Hx Ht].
+  cbn [flat_map app]. rewrite has_cons, Hx, has_app, Hn. now apply IH.
+Qed.
+
+Lemma assoc_In k l v : assoc k l = Some v -> In (k, v) l.
+Proof.
+  induction l as [|[a b] l IH]; intros H; [discriminate|].
+  cbn [assoc] in H. destruct (text_eqb k a) eqn:E.
+  - apply text_eqb_eq in E. inversion H; subst. now left.
+  - right. now apply IH.
+Qed.
+
+(* no value of the tables contains ch *)
+Definition tables_free (ch : N) : bool :=
+  forallb (fun kv => negb (has ch (snd kv))) denormalize_table && forallb (fun kv => negb (has ch (snd kv))) denormalize_replace.
+
+Lemma fold_replace_has ch (l : list (text * text)) w :
+  forallb (fun kv => negb (has ch (snd kv))) l = true -> has ch w = false ->
+  has ch (fold_left (fun acc on => replace (fst on) (snd on) acc) l w) = false.
+Proof.
+  revert w. induction l as [|[o n] l IH]; intros w Hl Hw; [exact Hw|].
+  cbn [forallb] in Hl. apply andb_true_iff in Hl as [Hn Hl]. apply negb_true_iff in Hn.
+  cbn [fold_left]. apply IH; [exact Hl|]. now apply replace_has.
+Qed.
+
+Lemma denormalize_has ch w : tables_free ch = true -> has ch w = false -> has ch (denormalize w) = false.
+Proof.
+  unfold tables_free. intros H Hw. apply andb_true_iff in H as [H1 H2].
+  unfold denormalize. destruct (assoc w denormalize_table) as [v|] eqn:E.
+  - apply assoc_In in E. rewrite forallb_forall in H1. specialize (H1 _ E). now apply negb_true_iff in H1.
+  - now apply fold_replace_has.
+Qed.
+
+Lemma denormalize_nosp w : nosp w -> nosp (denormalize w).
+Proof. apply denormalize_has. vm_compute. reflexivity. Qed.
+Lemma denormalize_nobs w : has cBS w = false -> has cBS (denormalize w) = false.
+Proof. apply denormalize_has. vm_compute. reflexivity. Qed.
+
+(* deleting backslashes from a text without backslash *)
+Lemma remove_absent ch t : has ch t = false -> replace [ch] [] t = t.
+Proof.
+  unfold replace. induction t as [|x t IH]; intros H; [reflexivity|].
+  rewrite has_cons in H. apply orb_false_iff in H as [Hx Ht].
+  cbn [replace_go prefixb]. rewrite Hx. cbn [andb]. now rewrite IH.
+Qed.
+
+(* ---------- _fix leaves a printed category alone ---------- *)
+(* in a printed category, every '[' directly follows a character of an atom name *)
+Fixpoint lbok (prev : option N) (t : text) : bool :=
+  match t with
+  | [] => true
+  | c :: r => (if N.eqb c cLB then match prev with Some p => plainc p | None => false end else true) && lbok (Some c) r
+  end.
+Definition lastc (prev : option N) (t : text) : option N := match rev t with [] => prev | x :: _ => Some x end.
+
+Lemma lastc_cons prev x t : lastc prev (x :: t) = lastc (Some x) t.
+Proof.
+  unfold lastc. cbn [rev]. destruct (rev t) as [|y l] eqn:E; reflexivity.
+Qed.
+
+Lemma lbok_app prev a b : lbok prev (a ++ b) = lbok prev a && lbok (lastc prev a) b.
+Proof.
+  revert prev. induction a as [|x a IH]; intros prev.
+  - reflexivity.
+  - cbn [app lbok]. rewrite IH, lastc_cons. now rewrite andb_assoc.
+Qed.
+
+Lemma lbok_plain prev t : allplain t = true -> lbok prev t = true.
+Proof.
+  revert prev. induction t as [|x t IH]; intros prev H; [reflexivity|].
+  cbn [allplain forallb] in H. apply andb_true_iff in H as [Hx Ht]. cbn [lbok].
+  rewrite (IH _ Ht), andb_true_r.
+  destruct (N.eqb_spec x cLB) as [->|]; [discriminate Hx | reflexivity].
+Qed.
+
+Lemma lastc_plain prev t : t <> [] -> allplain t = true -> exists p, lastc prev t = Some p /\ plainc p = true.
+Proof.
+  intros Hne Hall. unfold lastc. destruct (rev t) as [|x l] eqn:E.
+  - exfalso. apply Hne. apply (f_equal (@rev N)) in E. now rewrite rev_involutive in E.
+  - exists x. split; [reflexivity|].
+    unfold allplain in Hall. rewrite forallb_forall in Hall. apply Hall. apply in_rev. rewrite E. now left.
+Qed.
+
+Lemma show_lbok c : wf puncts c -> forall prev, lbok prev (show c) = true.
+Proof.
+  induction c as [b f | l IHl s r IHr]; intros Hwf prev.
+  - destruct Hwf as ([Hne Hb] & Hf & _). cbn [show].
+    pose proof (allplain_show_feat f Hf) as Hft.
+    destruct (show_feat f) as [|x ft] eqn:E.
+    + now apply lbok_plain.
+    + rewrite !lbok_app. rewrite (lbok_plain prev b Hb), (lbok_plain _ (x :: ft) Hft). cbn [andb].
+      destruct (lastc_plain prev b Hne Hb) as (p & -> & Hp).
+      cbn [lbok]. change (N.eqb cLB cLB) with true. cbv iota. rewrite Hp.
+      change (N.eqb cRB cLB) with false. reflexivity.
+  - destruct Hwf as (Hl & Hs & Hr).
+    assert (Hp : forall x, (forall prev, lbok prev (show x) = true) -> forall prev, lbok prev (pshow x) = true).
+    { intros x Hx pv. destruct x; [apply Hx|]. unfold pshow. cbn [app lbok]. change (N.eqb cLP cLB) with false. cbv iota. cbn [andb].
+      rewrite lbok_app, Hx. reflexivity. }
+    change (show (Fun l s r)) with (pshow l ++ s ++ pshow r).
+    rewrite lbok_app, (Hp l (IHl Hl)). cbn [andb]. rewrite lbok_app, (Hp r (IHr Hr)), andb_true_r.
+    destruct Hs as [-> | [-> | ->]]; reflexivity.
+Qed.
+
+Lemma lbok_mid prev x a y : lbok prev (x ++ a :: cLB :: y) = true -> plainc a = true.
+Proof.
+  rewrite lbok_app. intros H. apply andb_true_iff in H as [_ H].
+  cbn [lbok] in H. change (N.eqb cLB cLB) with true in H. cbv iota in H.
+  apply andb_true_iff in H as [_ H]. apply andb_true_iff in H as [H _]. exact H.
+Qed.
+
+Lemma suffixb_app suf t : suffixb suf t = true -> exists x, t = x ++ suf.
+Proof.
+  unfold suffixb. intros H. apply andb_true_iff in H as [_ H]. apply text_eqb_eq in H.
+  exists (firstn (length t - length suf) t). rewrite <- H at 2. now rewrite firstn_skipn.
+Qed.
+
+(* every suffix that triggers the cut starts with a non-name character followed by '[' *)
+Definition suffixes_ok : bool :=
+  forallb (fun suf => match suf with a :: b :: _ => negb (plainc a) && N.eqb b cLB | _ => false end) fix_suffixes.
+(* a key of _FIX is not the printed form of the category it reads as (or is mapped to itself) *)
+Definition fix_table_ok : bool :=
+  forallb (fun kv => match parse_cat (fst kv) with
+                     | None => true
+                     | Some c => negb (text_eqb (show c) (fst kv)) || text_eqb (snd kv) (fst kv)
+                     end) fix_table.
+
+Lemma fix_show c : wf puncts c -> fixcat (show c) = show c.
+Proof.
+  intros Hwf. unfold fixcat.
+  destruct (assoc (show c) fix_table) as [v|] eqn:E.
+  - apply assoc_In in E.
+    assert (Hok : fix_table_ok = true) by (vm_compute; reflexivity).
+    unfold fix_table_ok in Hok. rewrite forallb_forall in Hok. specialize (Hok _ E). cbn [fst snd] in Hok.
+    rewrite (parse_cat_show c Hwf), text_eqb_refl in Hok. cbn [negb orb] in Hok. now apply text_eqb_eq in Hok.
+  - destruct (existsb (fun suf => suffixb suf (show c)) fix_suffixes) eqn:Ex; [|reflexivity].
+    exfalso. apply existsb_exists in Ex as (suf & Hin & Hsuf).
+    assert (Hok : suffixes_ok = true) by (vm_compute; reflexivity).
+    unfold suffixes_ok in Hok. rewrite forallb_forall in Hok. specialize (Hok _ Hin).
+    destruct suf as [|a [|b suf]]; try discriminate Hok.
+    apply andb_true_iff in Hok as [Ha Hb]. apply N.eqb_eq in Hb. subst b.
+    apply suffixb_app in Hsuf as [x Hx].
+    pose proof (show_lbok c Hwf None) as Hl. rewrite Hx in Hl. apply lbok_mid in Hl. rewrite Hl in Ha. discriminate.
+Qed.
+
+Lemma parse_fix_show c : wf puncts c -> parse_cat (fixcat (show c)) = Some c.
+Proof. intros H. rewrite fix_show by assumption. now apply parse_cat_show. Qed.
+
+(* ---------- the reader on printed text ---------- *)
+Lemma check_0 x s : check (x :: s) 0 x = true.
+Proof. unfold check. cbn [nth_error]. apply N.eqb_refl. Qed.
+Lemma check_1 a x s : check (a :: x :: s) 1 x = true.
+Proof. unfold check. cbn [nth_error]. apply N.eqb_refl. Qed.
+Lemma check_2 a b x s : check (a :: b :: x :: s) 2 x = true.
+Proof. unfold check. cbn [nth_error]. apply N.eqb_refl. Qed.
+
+Lemma leaf_text_nf c pos w tl :
+  leaf_text c pos w ++ tl =
+  cLP :: cLT :: cL :: cSP :: (show c ++ cSP :: (pos ++ cSP :: (pos ++ cSP :: (denormalize w ++ cSP :: ((show c ++ s_closeL) ++ tl))))).
+Proof. unfold leaf_text, s_openL. repeat (rewrite <- app_assoc; cbn [app]). reflexivity. Qed.
+
+Lemma T_text_nf c hl n body :
+  hdr c hl n ++ [cSP] ++ body =
+  cLP :: cLT :: cT :: cSP :: (show c ++ cSP :: ([if hl then c0 else c1] ++ cSP :: ([n; cGT] ++ cSP :: body))).
+Proof. unfold hdr, s_openT. repeat (rewrite <- app_assoc; cbn [app]). reflexivity. Qed.
+
+Lemma next_open3 line a b c r : a <> cSP -> b <> cSP -> c <> cSP -> next line (a :: b :: c :: cSP :: r) = ([a; b; c], r).
+Proof.
+  intros Ha Hb Hc. change (a :: b :: c :: cSP :: r) with ([a; b; c] ++ cSP :: r). apply next_field.
+  unfold nosp. cbn [has existsb]. apply N.eqb_neq in Ha, Hb, Hc. rewrite (N.eqb_sym cSP a), (N.eqb_sym cSP b), (N.eqb_sym cSP c), Ha, Hb, Hc. reflexivity.
+Qed.
+
+Lemma parse_leaf_text line c pos w tl toks :
+  wf puncts c -> nosp pos -> word_ok w -> tail_ok tl ->
+  parse_leaf line (leaf_text c pos w ++ tl) toks =
+  Some (Leaf c (reader_token (denormalize w) pos pos) s_lex s_lexsym, after line tl, toks ++ [reader_token (denormalize w) pos pos]).
+Proof.
+  intros Hc Hpos [Hw1 Hw2] Htl. rewrite leaf_text_nf. unfold parse_leaf.
+  rewrite check_0, check_1, check_2. cbn [andb].
+  rewrite next_open3 by discriminate.
+  rewrite (next_field line (show c)) by now apply show_nosp.
+  rewrite parse_fix_show by assumption.
+  rewrite (next_field line pos) by assumption.
+  rewrite (next_field line pos) by assumption.
+  rewrite (next_field line (denormalize w)) by now apply denormalize_nosp.
+  assert (Hlast : nosp (show c ++ s_closeL)) by (apply nosp_app; [now apply show_nosp | reflexivity]).
+  destruct (next_last line _ tl Hlast Htl) as [x ->].
+  rewrite remove_absent by now apply denormalize_nobs.
+  reflexivity.
+Qed.
+
+Lemma node_S guess line f s toks :
+  node guess line (S f) s toks =
+  match nth_error s 2 with
+  | None => None
+  | Some k =>
+      if N.eqb k cL then parse_leaf line s toks
+      else if N.eqb k cT then
+        if check s 0 cLP && check s 1 cLT && check s 2 cT then
+          let (_, s1) := next line s in
+          let (ctext, s2) := next line s1 in
+          match parse_cat (fixcat ctext) with
+          | None => None
+          | Some c =>
+              let (h, s3) := next line s2 in
+              let hl := text_eqb h [c0] in
+              let (_, s4) := next line s3 in
+              match kids guess line f s4 toks with
+              | None => None
+              | Some (children, s5, toks') =>
+                  let (_, s6) := next line s5 in
+                  match children with
+                  | [l; r] => let (o, y) := guess c (tcat l) (tcat r) in Some (Bin c o y hl l r, s6, toks')
+                  | [u] => Some (Un c s_lex s_unsym u, s6, toks')
+                  | _ => None
+                  end
+              end
+          end
+        else None
+      else None
+  end.
+Proof. reflexivity. Qed.
+
+Lemma kids_S guess line f s toks :
+  kids guess line (S f) s toks =
+  match s with
+  | [] => None
+  | k :: _ =>
+      if N.eqb k cRP then Some ([], s, toks)
+      else match node guess line f s toks with
+           | None => None
+           | Some (t, s', toks') =>
+               match kids guess line f s' toks' with
+               | None => None
+               | Some (ts, s'', toks'') => Some (t :: ts, s'', toks'')
+               end
+           end
+  end.
+Proof. reflexivity. Qed.
+
+Lemma print_starts t p : print_auto t = Some p -> exists p', p = cLP :: p'.
+Proof.
+  destruct t as [c tok ops sym | c ops sym u | c ops sym hl l r]; cbn [print_auto]; intros H.
+  - destruct (leaf_word tok); [|discriminate]. inversion H. eexists. reflexivity.
+  - destruct (print_auto u); [|discriminate]. inversion H. eexists. reflexivity.
+  - destruct (print_auto l); [|discriminate]. destruct (print_auto r); [|discriminate]. inversion H. eexists. reflexivity.
+Qed.
+
+Lemma wf_printable t : wf_tree t -> exists p, print_auto t = Some p.
+Proof.
+  induction t as [c tok ops sym | c ops sym u IHu | c ops sym hl l IHl r IHr]; cbn [wf_tree print_auto].
+  - intros (_ & (w & -> & _) & _). eexists. reflexivity.
+  - intros (_ & Hu). destruct (IHu Hu) as [p ->]. eexists. reflexivity.
+  - intros (_ & Hl & Hr). destruct (IHl Hl) as [a ->]. destruct (IHr Hr) as [b ->]. eexists. reflexivity.
+Qed.
+
+Lemma tcat_canon guess t : tcat (canon guess t) = tcat t.
+Proof. destruct t as [c tok ops sym | c ops sym u | c ops sym hl l r]; cbn [canon tcat]; [reflexivity | reflexivity |]. now destruct (guess c (tcat l) (tcat r)). Qed.
+
+Lemma need_pos t : (1 <= need t)%nat.
+Proof. destruct t; cbn [need]; lia. Qed.
+
+Lemma hl_digit (hl : bool) : text_eqb [if hl then c0 else c1] [c0] = hl.
+Proof. now destruct hl. Qed.
+
+Section ReadPrint.
+Variable guess : cat -> cat -> cat -> text * text.
+Variable line : text.
+
+(* a printed subtree, followed by the end of the line or by a blank, is read back as its canonical form; the cursor ends
+   behind the blank (or at 0), the token list grows by the tokens of the subtree *)
+Lemma node_print t : wf_tree t -> forall p, print_auto t = Some p ->
+  forall fuel tl toks, (need t <= fuel)%nat -> tail_ok tl ->
+  node guess line fuel (p ++ tl) toks = Some (canon guess t, after line tl, toks ++ tokens (canon guess t)).
+Proof.
+  induction t as [c tok ops sym | c ops sym u IHu | c ops sym hl l IHl r IHr]; intros Hwf p Hp fuel tl toks Hfuel Htl.
+  - (* leaf *)
+    cbn [wf_tree] in Hwf. destruct Hwf as (Hc & (w & Hw & Hwo) & Hpos).
+    cbn [print_auto] in Hp. rewrite Hw in Hp.
+    assert (Ep : p = leaf_text c (tok_get_default k_pos s_POS tok) w) by congruence. subst p. clear Hp.
+    destruct fuel as [|f]; [cbn [need] in Hfuel; lia|].
+    rewrite node_S.
+    assert (nth_error (leaf_text c (tok_get_default k_pos s_POS tok) w ++ tl) 2 = Some cL) as -> by (rewrite leaf_text_nf; reflexivity).
+    rewrite N.eqb_refl.
+    rewrite parse_leaf_text by assumption.
+    cbn [canon]. rewrite Hw. reflexivity.
+  - (* unary *)
+    cbn [wf_tree] in Hwf. destruct Hwf as (Hc & Hu).
+    cbn [print_auto] in Hp. destruct (print_auto u) as [pu|] eqn:Epu; [|discriminate].
+    assert (Ep : p = hdr c true c1 ++ [cSP] ++ pu ++ s_closeT) by congruence. subst p. clear Hp.
+    cbn [need] in Hfuel.
+    pose proof (need_pos u) as Hnu.
+    destruct fuel as [|[|[|f]]]; try lia.
+    rewrite <- !app_assoc. rewrite T_text_nf. rewrite node_S.
+    cbn [nth_error]. change (N.eqb cT cL) with false. rewrite N.eqb_refl. cbv iota.
+    rewrite check_0, check_1, check_2. cbn [andb].
+    rewrite next_open3 by discriminate.
+    rewrite (next_field line (show c)) by now apply show_nosp.
+    rewrite parse_fix_show by assumption.
+    rewrite (next_field line [c0]) by reflexivity.
+    rewrite (next_field line [c1; cGT]) by reflexivity.
+    destruct (print_starts u pu Epu) as [pu' Epu'].
+    (* first child *)
+    rewrite kids_S.
+    replace (pu ++ s_closeT ++ tl) with (pu ++ cSP :: (cRP :: tl)) by reflexivity.
+    rewrite Epu' at 1. cbn [app]. change (N.eqb cLP cRP) with false. cbv iota.
+    rewrite (IHu Hu pu eq_refl (S f) (cSP :: cRP :: tl) toks) by (try lia; right; eexists; reflexivity).
+    cbn [after].
+    (* the closing bracket *)
+    rewrite kids_S. rewrite N.eqb_refl.
+    destruct (next_last line [cRP] tl eq_refl Htl) as [x Hx]. cbn [app] in Hx. rewrite Hx.
+    reflexivity.
+  - (* binary *)
+    cbn [wf_tree] in Hwf. destruct Hwf as (Hc & Hl & Hr).
+    cbn [print_auto] in Hp. destruct (print_auto l) as [pl|] eqn:Epl; [|discriminate].
+    destruct (print_auto r) as [pr|] eqn:Epr; [|discriminate].
+    assert (Ep : p = hdr c hl c2 ++ [cSP] ++ pl ++ [cSP] ++ pr ++ s_closeT) by congruence. subst p. clear Hp.
+    cbn [need] in Hfuel.
+    pose proof (need_pos l) as Hnl. pose proof (need_pos r) as Hnr.
+    destruct fuel as [|[|[|[|f]]]]; try lia.
+    rewrite <- !app_assoc. rewrite T_text_nf. rewrite node_S.
+    cbn [nth_error]. change (N.eqb cT cL) with false. rewrite N.eqb_refl. cbv iota.
+    rewrite check_0, check_1, check_2. cbn [andb].
+    rewrite next_open3 by discriminate.
+    rewrite (next_field line (show c)) by now apply show_nosp.
+    rewrite parse_fix_show by assumption.
+    rewrite (next_field line [if hl then c0 else c1]) by now destruct hl.
+    rewrite (next_field line [c2; cGT]) by reflexivity.
+    rewrite hl_digit.
+    destruct (print_starts l pl Epl) as [pl' Epl']. destruct (print_starts r pr Epr) as [pr' Epr'].
+    (* left child *)
+    rewrite kids_S.
+    replace (pl ++ [cSP] ++ pr ++ s_closeT ++ tl) with (pl ++ cSP :: (pr ++ cSP :: (cRP :: tl))) by reflexivity.
+    rewrite Epl' at 1. cbn [app]. change (N.eqb cLP cRP) with false. cbv iota.
+    rewrite (IHl Hl pl eq_refl (S (S f)) (cSP :: (pr ++ cSP :: cRP :: tl)) toks) by (try lia; right; eexists; reflexivity).
+    cbn [after].
+    (* right child *)
+    rewrite kids_S.
+    rewrite Epr' at 1. cbn [app]. change (N.eqb cLP cRP) with false. cbv iota.
+    rewrite (IHr Hr pr eq_refl (S f) (cSP :: cRP :: tl)) by (try lia; right; eexists; reflexivity).
+    cbn [after].
+    (* the closing bracket *)
+    rewrite kids_S. rewrite N.eqb_refl.
+    destruct (next_last line [cRP] tl eq_refl Htl) as [x Hx]. cbn [app] in Hx. rewrite Hx.
+    rewrite !tcat_canon. cbn [canon].
+    destruct (guess c (tcat l) (tcat r)) as [o y].
+    unfold tokens. cbn [leaves]. rewrite map_app, app_assoc. reflexivity.
+Qed.
+End ReadPrint.
+
+(* ---------- the whole line, the whole file ---------- *)
+Lemma need_le_length t : forall p, print_auto t = Some p -> (need t <= length p)%nat.
+Proof.
+  induction t as [c tok ops sym | c ops sym u IHu | c ops sym hl l IHl r IHr]; intros p Hp; cbn [print_auto] in Hp.
+  - destruct (leaf_word tok); [|discriminate]. assert (E : p = leaf_text c (tok_get_default k_pos s_POS tok) t) by congruence.
+    subst p. unfold leaf_text, s_openL. rewrite app_length. cbn [length need]. lia.
+  - destruct (print_auto u) as [pu|]; [|discriminate].
+    assert (E : p = hdr c true c1 ++ [cSP] ++ pu ++ s_closeT) by congruence. subst p.
+    specialize (IHu pu eq_refl). unfold s_closeT. rewrite !app_length. cbn [length need]. lia.
+  - destruct (print_auto l) as [pl|]; [|discriminate]. destruct (print_auto r) as [pr|]; [|discriminate].
+    assert (E : p = hdr c hl c2 ++ [cSP] ++ pl ++ [cSP] ++ pr ++ s_closeT) by congruence. subst p.
+    specialize (IHl pl eq_refl). specialize (IHr pr eq_refl). unfold s_closeT. rewrite !app_length. cbn [length need]. lia.
+Qed.
+
+Theorem read_line_print guess t p : wf_tree t -> print_auto t = Some p ->
+  read_line guess p = Some (canon guess t, tokens (canon guess t)).
+Proof.
+  intros Hwf Hp. unfold read_line.
+  pose proof (node_print guess p t Hwf p Hp (length p) [] [] (need_le_length t p Hp) (or_introl eq_refl)) as H.
+  rewrite app_nil_r in H. rewrite H. reflexivity.
+Qed.
+
+Lemma print_ends t p : print_auto t = Some p -> exists p', p = p' ++ [cRP].
+Proof.
+  destruct t as [c tok ops sym | c ops sym u | c ops sym hl l r]; cbn [print_auto]; intros H.
+  - destruct (leaf_word tok); [|discriminate].
+    assert (E : p = leaf_text c (tok_get_default k_pos s_POS tok) t) by congruence. subst p.
+    unfold leaf_text, s_closeL. eexists. change [cGT; cRP] with ([cGT] ++ [cRP]). rewrite !app_assoc. reflexivity.
+  - destruct (print_auto u) as [pu|]; [|discriminate].
+    assert (E : p = hdr c true c1 ++ [cSP] ++ pu ++ s_closeT) by congruence. subst p.
+    unfold s_closeT. eexists. change [cSP; cRP] with ([cSP] ++ [cRP]). rewrite !app_assoc. reflexivity.
+  - destruct (print_auto l) as [pl|]; [|discriminate]. destruct (print_auto r) as [pr|]; [|discriminate].
+    assert (E : p = hdr c hl c2 ++ [cSP] ++ pl ++ [cSP] ++ pr ++ s_closeT) by congruence. subst p.
+    unfold s_closeT. eexists. change [cSP; cRP] with ([cSP] ++ [cRP]). rewrite !app_assoc. reflexivity.
+Qed.
+
+Lemma lstrip_ws pad r : forallb is_ws pad = true -> lstrip (pad ++ r) = lstrip r.
+Proof.
+  induction pad as [|x pad IH]; intros H; [reflexivity|].
+  cbn [forallb] in H. apply andb_true_iff in H as [Hx Hp]. cbn [app lstrip]. rewrite Hx. now apply IH.
+Qed.
+
+(* str.strip() leaves a printed line alone and removes the newline (or any other white space) after it *)
+Lemma strip_printed t p pad : print_auto t = Some p -> forallb is_ws pad = true -> strip (p ++ pad) = p.
+Proof.
+  intros Hp Hpad. destruct (print_starts t p Hp) as [p1 E1]. destruct (print_ends t p Hp) as [p2 E2].
+  unfold strip.
+  assert (lstrip (p ++ pad) = p ++ pad) as -> by (rewrite E1; reflexivity).
+  rewrite rev_app_distr. rewrite lstrip_ws by (rewrite forallb_forall in *; intros x Hx; apply Hpad; now apply in_rev).
+  rewrite E2 at 1. rewrite rev_app_distr. cbn [rev app lstrip]. change (is_ws cRP) with false. cbv iota.
+  change (cRP :: rev p2) with (rev [cRP] ++ rev p2). rewrite <- rev_app_distr, rev_involutive. now rewrite <- E2.
+Qed.
+
+Theorem read_file_print guess t p name pad :
+  wf_tree t -> print_auto t = Some p -> prefixb s_ID (strip name) = true -> forallb is_ws pad = true ->
+  read_auto guess [name; p ++ pad] = Some [(strip name, tokens (canon guess t), canon guess t)].
+Proof.
+  intros Hwf Hp Hid Hpad. unfold read_auto. cbn [read_lines].
+  destruct (strip name) as [|n0 n] eqn:En; [discriminate Hid|]. rewrite Hid.
+  rewrite (strip_printed t p pad Hp Hpad).
+  destruct (print_starts t p Hp) as [p1 E1]. subst p.
+  change (prefixb s_ID (cLP :: p1)) with false. cbv iota.
+  rewrite (read_line_print guess t _ Hwf Hp). reflexivity.
+Qed.
+
+(* ---------- printing what was read: denormalize is idempotent ---------- *)
+Lemma replace1_flat o n t : replace [o] n t = flat_map (fun x => if N.eqb o x then n else [x]) t.
+Proof.
+  unfold replace. induction t as [|x t IH]; [reflexivity|].
+  cbn [replace_go prefixb flat_map length Nat.sub]. rewrite andb_true_r.
+  destruct (N.eqb o x); rewrite IH; reflexivity.
+Qed.
+
+Lemma replace1_absent o n t : has o t = false -> replace [o] n t = t.
+Proof.
+  rewrite replace1_flat. induction t as [|x t IH]; intros H; [reflexivity|].
+  rewrite has_cons in H. apply orb_false_iff in H as [Hx Ht]. cbn [flat_map]. rewrite Hx. cbn [app]. now rewrite IH.
+Qed.
+
+Lemma replace1_gone o n t : has o n = false -> has o (replace [o] n t) = false.
+Proof.
+  intros Hn. rewrite replace1_flat. induction t as [|x t IH]; [reflexivity|].
+  cbn [flat_map]. rewrite has_app, IH, orb_false_r.
+  destruct (N.eqb o x) eqn:E; [exact Hn|]. rewrite has_cons, E. reflexivity.
+Qed.
+
+Lemma replace1_single o n t c : (2 <= length n)%nat -> replace [o] n t = [c] -> t = [c].
+Proof.
+  intros Hn. rewrite replace1_flat. destruct t as [|x t]; [discriminate|].
+  cbn [flat_map]. destruct (N.eqb o x).
+  - intros H. apply (f_equal (@length N)) in H. rewrite app_length in H. cbn [length] in H. lia.
+  - cbn [app]. intros H. injection H as -> H. destruct t as [|y t]; [reflexivity|].
+    exfalso. cbn [flat_map] in H. destruct (N.eqb o y); [destruct n; [cbn in Hn; lia | discriminate] | discriminate].
+Qed.
+
+(* shape of the replacement list: single characters are replaced by texts of at least two characters none of which is replaced *)
+Definition repl_ok (l : list (text * text)) : bool :=
+  forallb (fun on => match fst on with
+                     | [o] => Nat.leb 2 (length (snd on)) && forallb (fun on' => match fst on' with [o'] => negb (has o' (snd on)) | _ => false end) l
+                     | _ => false
+                     end) l.
+Definition olds (l : list (text * text)) : list N := flat_map (fun on => fst on) l.
+Definition foldrep (l : list (text * text)) (w : text) : text := fold_left (fun acc on => replace (fst on) (snd on) acc) l w.
+
+Section Repl.
+Variable R : list (text * text).
+Hypothesis R_ok : repl_ok R = true.
+
+Lemma R_entry o n : In (o, n) R -> exists ch, o = [ch] /\ (2 <= length n)%nat /\ forall o', In o' (olds R) -> has o' n = false.
+Proof.
+  intros Hin. unfold repl_ok in R_ok. rewrite forallb_forall in R_ok. specialize (R_ok _ Hin). cbn [fst snd] in R_ok.
+  destruct o as [|ch [|? ?]]; try discriminate R_ok. exists ch. split; [reflexivity|].
+  apply andb_true_iff in R_ok as [Hlen Hall]. split; [now apply Nat.leb_le|].
+  intros o' Ho'. unfold olds in Ho'. apply in_flat_map in Ho' as ([o2 n2] & Hin2 & Ho2). cbn [fst] in Ho2.
+  rewrite forallb_forall in Hall. specialize (Hall _ Hin2). cbn [fst] in Hall.
+  destruct o2 as [|c2 [|? ?]]; try discriminate Hall. destruct Ho2 as [<- | []]. now apply negb_true_iff in Hall.
+Qed.
+
+(* sub-lists of R *)
+Lemma foldrep_keeps_absent l ch w : incl l R -> In ch (olds R) -> has ch w = false -> has ch (foldrep l w) = false.
+Proof.
+  revert w. induction l as [|[o n] l IH]; intros w Hl Hch Hw; [exact Hw|].
+  unfold foldrep. cbn [fold_left fst snd]. apply IH; [intros x Hx; apply Hl; now right | exact Hch |].
+  destruct (R_entry o n (Hl _ (or_introl eq_refl))) as (c & -> & _ & Hfree).
+  apply replace_has; [now apply Hfree | exact Hw].
+Qed.
+
+Lemma foldrep_clean l w : incl l R -> forall ch, In ch (olds l) -> has ch (foldrep l w) = false.
+Proof.
+  revert w. induction l as [|[o n] l IH]; intros w Hl ch Hch; [destruct Hch|].
+  assert (Hl' : incl l R) by (intros x Hx; apply Hl; now right).
+  destruct (R_entry o n (Hl _ (or_introl eq_refl))) as (c & -> & _ & Hfree).
+  unfold olds in Hch. cbn [flat_map fst app] in Hch. destruct Hch as [<- | Hch].
+  - unfold foldrep. cbn [fold_left fst snd].
+    apply (foldrep_keeps_absent l c _ Hl').
+    + unfold olds. apply in_flat_map. exists ([c], n). split; [apply Hl; now left | now left].
+    + apply replace1_gone. apply Hfree. unfold olds. apply in_flat_map. exists ([c], n). split; [apply Hl; now left | now left].
+  - unfold foldrep. cbn [fold_left fst snd]. now apply IH.
+Qed.
+
+Lemma foldrep_id l w : incl l R -> (forall ch, In ch (olds l) -> has ch w = false) -> foldrep l w = w.
+Proof.
+  revert w. induction l as [|[o n] l IH]; intros w Hl Hw; [reflexivity|].
+  destruct (R_entry o n (Hl _ (or_introl eq_refl))) as (c & -> & _ & _).
+  unfold foldrep. cbn [fold_left fst snd].
+  rewrite replace1_absent by (apply Hw; unfold olds; cbn [flat_map fst app]; now left).
+  apply IH; [intros x Hx; apply Hl; now right|].
+  intros ch Hch. apply Hw. unfold olds. cbn [flat_map fst app]. right. exact Hch.
+Qed.
+
+Lemma foldrep_single l w c : incl l R -> foldrep l w = [c] -> w = [c].
+Proof.
+  revert w. induction l as [|[o n] l IH]; intros w Hl H; [exact H|].
+  destruct (R_entry o n (Hl _ (or_introl eq_refl))) as (ch & -> & Hlen & _).
+  unfold foldrep in H. cbn [fold_left fst snd] in H.
+  apply IH in H; [|intros x Hx; apply Hl; now right]. now apply replace1_single in H.
+Qed.
+
+Lemma foldrep_idem w : foldrep R (foldrep R w) = foldrep R w.
+Proof. apply foldrep_id; [apply incl_refl|]. intros ch Hch. now apply foldrep_clean; [apply incl_refl|]. Qed.
+End Repl.
+
+(* every key of the table is a single character, every value of the table is left alone by denormalize *)
+Definition table_ok : bool :=
+  forallb (fun kv => match fst kv with [_] => true | _ => false end && text_eqb (denormalize (snd kv)) (snd kv)) denormalize_table.
+
+Theorem denormalize_idem w : denormalize (denormalize w) = denormalize w.
+Proof.
+  assert (HT : table_ok = true) by (vm_compute; reflexivity).
+  assert (HR : repl_ok denormalize_replace = true) by (vm_compute; reflexivity).
+  unfold table_ok in HT. rewrite forallb_forall in HT.
+  unfold denormalize at 2 3. destruct (assoc w denormalize_table) as [v|] eqn:E.
+  - apply assoc_In in E. specialize (HT _ E). cbn [fst snd] in HT. apply andb_true_iff in HT as [_ HT]. now apply text_eqb_eq in HT.
+  - fold (foldrep denormalize_replace w). unfold denormalize.
+    destruct (assoc (foldrep denormalize_replace w) denormalize_table) as [v|] eqn:E2.
+    + exfalso. pose proof (assoc_In _ _ _ E2) as Hin. specialize (HT _ Hin). cbn [fst snd] in HT.
+      apply andb_true_iff in HT as [HT _].
+      destruct (foldrep denormalize_replace w) as [|c [|? ?]] eqn:Ef; try discriminate HT.
+      apply (foldrep_single _ HR) in Ef; [|apply incl_refl]. subst w. rewrite E2 in E. discriminate.
+    + fold (foldrep denormalize_replace (foldrep denormalize_replace w)). now apply foldrep_idem.
+Qed.
+
+Theorem reprint guess t p : print_auto t = Some p -> print_auto (canon guess t) = Some p.
+Proof.
+  revert p. induction t as [c tok ops sym | c ops sym u IHu | c ops sym hl l IHl r IHr]; intros p Hp; cbn [print_auto canon] in *.
+  - destruct (leaf_word tok) as [w|]; [|discriminate].
+    change (leaf_word (reader_token (denormalize w) (leaf_pos tok) (leaf_pos tok))) with (Some (denormalize w)).
+    change (tok_get_default k_pos s_POS (reader_token (denormalize w) (leaf_pos tok) (leaf_pos tok))) with (leaf_pos tok).
+    unfold leaf_text in *. rewrite denormalize_idem. exact Hp.
+  - destruct (print_auto u) as [pu|]; [|discriminate]. now rewrite (IHu pu eq_refl).
+  - destruct (print_auto l) as [pl|]; [|discriminate]. destruct (print_auto r) as [pr|]; [|discriminate].
+    destruct (guess c (tcat l) (tcat r)) as [o y]. cbn [print_auto]. now rewrite (IHl pl eq_refl), (IHr pr eq_refl).
+Qed.
+
+(* ---------- conll: the fragments of the last column ---------- *)
+Lemma join_one a : join_sp [a] = a.
+Proof. reflexivity. Qed.
+Lemma join_cons a xs : xs <> [] -> join_sp (a :: xs) = a ++ cSP :: join_sp xs.
+Proof. destruct xs; [congruence | reflexivity]. Qed.
+Lemma join_snoc xs b : xs <> [] -> join_sp (xs ++ [b]) = join_sp xs ++ cSP :: b.
+Proof.
+  induction xs as [|a xs IH]; intros H; [congruence|].
+  destruct xs as [|a' xs]; [reflexivity|].
+  cbn [app]. rewrite (join_cons a (a' :: xs ++ [b])) by discriminate.
+  change (a' :: xs ++ [b]) with ((a' :: xs) ++ [b]). rewrite IH by discriminate. rewrite (join_cons a (a' :: xs)) by discriminate.
+  rewrite <- app_assoc. reflexivity.
+Qed.
+Lemma join_last_app st a b : join_sp (st ++ [a ++ b]) = join_sp (st ++ [a]) ++ b.
+Proof.
+  induction st as [|x st IH]; [reflexivity|].
+  cbn [app]. rewrite !join_cons by (destruct st; discriminate). rewrite IH. rewrite <- app_assoc. reflexivity.
+Qed.
+Lemma join_app xs ys : xs <> [] -> ys <> [] -> join_sp (xs ++ ys) = join_sp xs ++ cSP :: join_sp ys.
+Proof.
+  induction xs as [|a xs IH]; intros Hx Hy; [congruence|].
+  destruct xs as [|a' xs].
+  - cbn [app]. now rewrite join_cons.
+  - cbn [app]. rewrite (join_cons a (a' :: xs ++ ys)) by discriminate.
+    change (a' :: xs ++ ys) with ((a' :: xs) ++ ys). rewrite IH by (try discriminate; assumption). rewrite (join_cons a (a' :: xs)) by discriminate.
+    rewrite <- app_assoc. reflexivity.
+Qed.
+Lemma append_last_nonnil s fs : append_last s fs <> [].
+Proof. destruct fs as [|x [|y fs]]; discriminate. Qed.
+Lemma join_append_last s fs : fs <> [] -> join_sp (append_last s fs) = join_sp fs ++ s.
+Proof.
+  induction fs as [|x fs IH]; intros H; [congruence|].
+  destruct fs as [|y fs]; [reflexivity|].
+  change (append_last s (x :: y :: fs)) with (x :: append_last s (y :: fs)).
+  rewrite join_cons by apply append_last_nonnil. rewrite IH by discriminate. rewrite (join_cons x (y :: fs)) by discriminate.
+  rewrite <- app_assoc. reflexivity.
+Qed.
+
+Lemma pos_default tok d d' : tok_get k_pos tok <> None -> tok_get_default k_pos d tok = tok_get_default k_pos d' tok.
+Proof. unfold tok_get_default. destruct (tok_get k_pos tok); congruence. Qed.
+
+Lemma conll_go_spec t : all_pos t -> forall st,
+  match print_auto t with
+  | Some p => exists fs, conll_go t st = Some (fs, []) /\ fs <> [] /\ join_sp fs = join_sp (st ++ [p])
+  | None => conll_go t st = None
+  end.
+Proof.
+  induction t as [c tok ops sym | c ops sym u IHu | c ops sym hl l IHl r IHr]; intros Hpos st; cbn [all_pos print_auto conll_go] in *.
+  - destruct (leaf_word tok) as [w|]; [|reflexivity].
+    rewrite (pos_default tok s_us s_POS Hpos). eexists. split; [reflexivity|]. split; [discriminate | reflexivity].
+  - specialize (IHu Hpos (st ++ [hdr c true c1])). destruct (print_auto u) as [pu|].
+    + destruct IHu as (fs & -> & Hne & Hj). eexists. split; [reflexivity|]. split; [apply append_last_nonnil|].
+      rewrite join_append_last by assumption. rewrite Hj.
+      rewrite join_snoc by (destruct st; discriminate).
+      rewrite join_last_app. rewrite <- !app_assoc. reflexivity.
+    + now rewrite IHu.
+  - destruct Hpos as [Hpl Hpr]. specialize (IHl Hpl (st ++ [hdr c hl c2])). specialize (IHr Hpr []).
+    destruct (print_auto l) as [pl|].
+    + destruct IHl as (fl & -> & Hnel & Hjl). destruct (print_auto r) as [pr|].
+      * destruct IHr as (fr & -> & Hner & Hjr). eexists. split; [reflexivity|]. split; [apply append_last_nonnil|].
+        rewrite join_append_last by (destruct fl; [congruence | discriminate]).
+        rewrite join_app by assumption. rewrite Hjl, Hjr. cbn [app]. rewrite join_one.
+        rewrite join_snoc by (destruct st; discriminate).
+        rewrite join_last_app. rewrite <- !app_assoc. reflexivity.
+      * now rewrite IHr.
+    + now rewrite IHl.
+Qed.
+
+Theorem conll_fragments t : all_pos t -> option_map join_sp (conll_frags t) = print_auto t.
+Proof.
+  intros Hpos. unfold conll_frags. pose proof (conll_go_spec t Hpos []) as H.
+  destruct (print_auto t) as [p|].
+  - destruct H as (fs & -> & _ & Hj). cbn [option_map]. now rewrite Hj.
+  - now rewrite H.
+Qed.
+
+(* boolean versions *)
+Lemma word_okb_ok w : word_okb w = true <-> word_ok w.
+Proof. unfold word_okb, word_ok. rewrite andb_true_iff, !negb_true_iff. tauto. Qed.
+
+Lemma wf_treeb_ok t : wf_treeb t = true <-> wf_tree t.
+Proof.
+  induction t as [c tok ops sym | c ops sym u IHu | c ops sym hl l IHl r IHr]; cbn [wf_treeb wf_tree].
+  - unfold cat_okb, cat_ok, nosp. rewrite !andb_true_iff, wfb_ok, negb_true_iff.
+    destruct (leaf_word tok) as [w|].
+    + rewrite word_okb_ok. split.
+      * intros [[Hc Hw] Hp]. split; [exact Hc|]. split; [|exact Hp]. exists w. now split.
+      * intros (Hc & (w' & Hw' & Hw) & Hp). injection Hw' as <-. tauto.
+    + split; [intros [[_ H] _]; discriminate | intros (_ & (w & Hw & _) & _); discriminate].
+  - unfold cat_okb, cat_ok. rewrite andb_true_iff, wfb_ok, IHu. tauto.
+  - unfold cat_okb, cat_ok. rewrite !andb_true_iff, wfb_ok, IHl, IHr. tauto.
+Qed.
+
+Lemma all_posb_ok t : all_posb t = true <-> all_pos t.
+Proof.
+  induction t as [c tok ops sym | c ops sym u IHu | c ops sym hl l IHl r IHr]; cbn [all_posb all_pos].
+  - destruct (tok_get k_pos tok); split; intros H; congruence.
+  - exact IHu.
+  - rewrite andb_true_iff, IHl, IHr. tauto.
+Qed.
+
+(* ---------- what canon keeps ---------- *)
+Lemma canon_nleaves guess t : nleaves (canon guess t) = nleaves t.
+Proof.
+  induction t as [c tok ops sym | c ops sym u IHu | c ops sym hl l IHl r IHr]; cbn [canon nleaves]; [reflexivity | exact IHu |].
+  destruct (guess c (tcat l) (tcat r)). cbn [nleaves]. now rewrite IHl, IHr.
+Qed.
+Lemma canon_head_index guess t : head_index (canon guess t) = head_index t.
+Proof.
+  induction t as [c tok ops sym | c ops sym u IHu | c ops sym hl l IHl r IHr]; cbn [canon head_index]; [reflexivity | exact IHu |].
+  destruct (guess c (tcat l) (tcat r)). cbn [head_index]. now rewrite IHl, IHr, canon_nleaves.
+Qed.
+Lemma canon_leaf_cats guess t : map fst (leaves (canon guess t)) = map fst (leaves t).
+Proof.
+  induction t as [c tok ops sym | c ops sym u IHu | c ops sym hl l IHl r IHr]; cbn [canon leaves]; [reflexivity | exact IHu |].
+  destruct (guess c (tcat l) (tcat r)). cbn [leaves]. now rewrite !map_app, IHl, IHr.
+Qed.
+
+Lemma read_printed_print guess t : wf_tree t -> read_printed guess (print_auto t) = Some (canon guess t).
+Proof.
+  intros Hwf. destruct (wf_printable t Hwf) as [p Hp]. rewrite Hp. unfold read_printed.
+  now rewrite (read_line_print guess t p Hwf Hp).
+Qed.
+
+Lemma reprint_wf guess t : wf_tree t -> print_auto (canon guess t) = print_auto t.
+Proof. intros Hwf. destruct (wf_printable t Hwf) as [p Hp]. rewrite Hp. now apply reprint. Qed.
